@@ -34,7 +34,7 @@ CLAIMED = {
              'Managed* literals occur only in new with size = allocate\'s result; every path of allocate is balanced (Ok: +size once and that '
              'size is returned, Err: net zero); no leak/duplication primitive outside the audited sort utilities; values are immutable after '
              'construction so no Rc cycle can form. Also decided: the limit comparison shape and who reads size_limit (monotonicity in L), and '
-             'that the size model reads every runtime-sized payload field. NOT decided: that dyn_size byte counts are adequate numbers, nor peak '
+             'that the size model reads every runtime-sized payload field, and that the byte counts derived from a big integer are in bytes (unit analysis over bits / 64-bit digits / bytes). NOT decided: that dyn_size byte counts are adequate numbers, nor peak '
              'accounting of transient native buffers.',
         note='Trusted: rustc MIR + drop elaboration (each Managed* value dropped exactly once unless leaked by a listed primitive); '
              'regex-automata/statrs objects hold no managed values.',
@@ -87,7 +87,7 @@ CLAIMED = {
              'operator; failed try_into; MIN arms; listed assert sites) — the canonical form on which derived equality, hash, text and the '
              'mixed comparison arms rely; overflow-capable machine arithmetic on the small form only behind arms excluding (MIN,-1)/MIN; '
              'impls of Op/OpAssign apply only Op; swapped or-patterns only in commutative operators; Rem floored as documented; mixed '
-             'comparison arms mirrored (abstract decision table on the MIR); the int builtins register the operator of the same name; no saturating float-to-integer `as` cast yields a program integer; abs of the machine word only where i64::MIN is excluded; integer functions of the stdlib written in the language do not round a float quotient; the float parse of a number literal is reached only after the spelling was tested for being an integer spelling. NOT decided: exactness of gcd/'
+             'comparison arms mirrored (abstract decision table on the MIR); the int builtins register the operator of the same name; every integer a binary int native returns is computed by the operator of that native from both operands; no saturating float-to-integer `as` cast yields a program integer; abs of the machine word only where i64::MIN is excluded; integer functions of the stdlib written in the language do not round a float quotient; the float parse of a number literal is reached only after the spelling was tested for being an integer spelling. NOT decided: exactness of gcd/'
              'factorial/roots/binom/multinom arithmetic and of text/float conversions (value-level).',
         note='Trusted: syn parse; i64 checked_* and num-bigint semantics; the book for the rounding mode of mod.',
         technique='static analysis: syntax-tree rules (constructor-site classification, arm-order guards, operator/trait agreement, table agreement with the book); cast / call inventories, dominance and control-dependence rules and an abstract decision table on resolved MIR; a lexical rule over the stdlib text',
@@ -130,7 +130,7 @@ CLAIMED = {
              'values are arity- and argument-checked for both callee kinds; both declared-type checks, evaluated abstractly for the three possible results of bind_in_assignment (none / empty binding / binding of a generic), reject / accept / reject; every zip of '
              'two runtime-length lists in the type relations and call/construct typing is preceded by a length test on the same two lists (or '
              'listed with a confirmed reason) and its two sides iterate in the same direction; the hand-written type equality reads every '
-             'typing-relevant field (incl. the return type of function types); the case tables of bind_in_assignment / common_type / eq agree '
+             'typing-relevant field (incl. the return type of function types, and, for compound types, the declaration itself, not only its name); matching a parameter type that is a generic variable always records a binding (abstract evaluation; one known finding: the caller\'s generic of the same name); the case tables of bind_in_assignment / common_type / eq agree '
              'with the confirmed table; an already-bound generic parameter is re-bound only to the success payload of common_type(existing, new) '
              '(MIR: every insert into bound_generics on the found side of a lookup of the same map). These rule out the accept-too-much failures (truncated comparison, ignored component, swapped '
              'component). NOT decided: completeness (every assignable program accepted) and least-common-type optimality.',
@@ -145,7 +145,7 @@ CLAIMED = {
              'documented decision (take the single exact; ambiguity for >1 exact; else the single generic; ambiguity for >1 generic; else '
              'NoOverload) whatever its syntactic form; the tier of a candidate is a function of (is_generic, '
              'is_unknown) and is_unknown of the argument types only; own overloads are appended before the parent\'s and never indexed by '
-             'position; the own generic-parameter list of a declaration (which decides its tier) is not influenced by the generic names inherited from enclosing functions (data + control dependences with &mut mutation and closure summaries), so renaming a generic parameter cannot change a rank. Hence the outcome depends only on the multiset of matching candidates. Known finding: dynamic candidates share the '
+             'position; the own generic-parameter list of a declaration (which decides its tier) is not influenced by the generic names inherited from enclosing functions (data + control dependences with &mut mutation and closure summaries), so renaming a generic parameter cannot change a rank; get_item hides a parent overload of the recursing name exactly when one of its forward requirements is unfulfilled (decision table: the any/all closure evaluated abstractly, the polarity of the test read off the CFG). Hence the outcome depends only on the multiset of matching candidates. Known finding: dynamic candidates share the '
              'generic tier (R05.6). NOT decided: that spec.bind matches exactly the right candidates (C04).',
         note='Trusted: syn parse. One known finding listed in known_findings.json.',
         technique='static analysis on resolved MIR: loop-carried-state and exit-edge analysis, finite abstract evaluation of the post-loop decision table, influence (dependence) closure of the own-generics list; two tier/append rules on the syntax tree',
@@ -183,7 +183,7 @@ CLAIMED = {
         text='Structural clauses decided for every site: values immutable after construction (type-closure audit, so every update returns a '
              'new collection and earlier versions cannot change); on every path from the examination of a KeyLocation (variant knowledge carried along the path) '
              'a stored element is paired with exactly one len + 1, a Found location stores nothing and leaves len alone, and a collection is rebuilt with len - 1 only where a Found '
-             'location is established (in the body or at every call site); the two locate routines have the same summary (hash called on [key], '
+             'location is established (in the body or at every call site), and every explicit length argument is 0, the source length or the source length minus one (never a bucket count); the two locate routines have the same summary (hash called on [key], '
              'to_u64 with failure exit, bucket looked up by that hash, eq called on [key, stored] in that order over the whole bucket with no position-dropping adaptor, '
              'Vacant/Missing/Found all carrying the converted hash), helpers included; every bucket handed to the table is a non-empty literal or stored on the is_empty()==false edge of a test of that bucket, '
              'because hash() and the size model fold over all buckets; a KeyLocation is used only on the collection it was computed on with no write in between, or on an unwritten clone of it. '
@@ -198,7 +198,7 @@ CLAIMED = {
              'argument-derived start tests it against the length first, and, because that test admits start == len, FencedString looks a caller-supplied position up in the code-point table only by length-tolerant accesses (get / range slice / index under a length test); a unit analysis on the MIR (byte offsets vs code-point counts, origins walked backwards through statements, calls and closures) '
              'shows that no byte offset reaches a code-point sink (substring/substr indices, padding widths, integers returned by the str and regex '
              'natives) and no program-supplied index reaches a byte API (&str slicing, regex Input ranges) without conversion; the escape table equals the book\'s list with validated \\u{..} scalars; raw strings '
-             'bypass unescaping while quoted and f-string text parts go through it. NOT decided: agreement of split/replace/strip/... (xray '
+             'bypass unescaping while quoted and f-string text parts go through it; escape sequences are decoded in one pass (the escape pattern is scanned over literal text only, never over already decoded text). NOT decided: agreement of split/replace/strip/... (xray '
              'stdlib text) with code-point semantics.',
         note='Trusted: syn parse; the book (lang/string_literals.md).',
         technique='static analysis: construction-site rules, guard-before-slice and table agreement with the book on the syntax tree; unit (byte vs code point) origin analysis on resolved MIR',
@@ -223,7 +223,7 @@ CLAIMED = {
              '/ out-of-range exits are checked); Chain and Slice literals occur only inside their invariant-keeping constructors and a slice of '
              'a slice is flattened by adding offsets (the operands of the rebuilt Slice come from the inner payload plus the request); whether slice() builds a Slice at all is decided '
              '(control + data dependence closure) by tests of start against end and against the length; the Range literal is built only after the zero-step and emptiness tests; '
-             'value_to_idx compares the converted index with the length as idx >= len / idx < len wherever the test is written; natives never order two raw index arguments before normalising them. NOT decided: '
+             'value_to_idx compares the converted index with the length as idx >= len / idx < len wherever the test is written; natives never order two raw index arguments before normalising them; optional bounds (None = unbounded) are never combined with the derived ordering of Option. NOT decided: '
              'agreement of len/get/slice/... with list semantics for all compositions (value level).',
         note='Trusted: rustc MIR, syn parse.',
         technique='static analysis: type-closure immutability audit; who-constructs rules; backward slices, control-dependence closure and operand-origin classification of comparisons on resolved MIR',
@@ -234,7 +234,7 @@ CLAIMED = {
              'of absorbing adaptors (collect, count, last, fold, ...) on inner generator iterators anywhere in the _iter family; the slice '
              'dimensions are decided by path-sensitive dependences on the MIR: on every path the merged start depends on inner start and start, the '
              'merged end depends on the new end + inner start whenever the new end may exist and on the inner end whenever it may exist, and the '
-             'consumer takes a count depending on stored end and start and skips the stored start; generator-to-generator library functions written in the language apply no consuming function (by the book: Generator in, non-Generator out) to their generator parameter. One known finding (flatten walks its outer generator eagerly). NOT decided: element-wise agreement with list pipelines.',
+             'consumer takes a count depending on stored end and start and skips the stored start; generator-to-generator library functions written in the language apply no consuming function (by the book: Generator in, non-Generator out) to their generator parameter; where a vector of part iterators is advanced in a loop (cartesian product) an exhausted part is rewound before the loop continues. One known finding (flatten walks its outer generator eagerly). NOT decided: element-wise agreement with list pipelines.',
         note='Trusted: rustc MIR, syn parse, laziness of std iterator adaptors.',
         technique='static analysis: immutability audit, adaptor inventory over the iterator-construction bodies, path-sensitive dependence analysis of the slice dimensions on resolved MIR; a lexical rule over the stdlib text against the book\'s signatures',
         design='2/C16'),
@@ -245,7 +245,7 @@ CLAIMED = {
              'component; and a typestate check of the unsafe fallible merge sort / heap on MIR: every bitwise duplication is followed by the '
              'construction of a Drop guard before any comparator call or return, guards implement Drop and are never forgotten - so a comparator '
              'failing midway loses or duplicates no element; the natural-run detection of the merge sort extends a reversed run while is_less and a '
-             'kept run while !is_less (contradiction rule); format padding is computed from code-point counts (unit analysis). NOT decided: '
+             'kept run while !is_less (contradiction rule); format padding is computed from code-point counts (unit analysis); hash natives build their integers from u64 values or constants, never by big-integer arithmetic, so derived hashes stay in [0, 2^64). NOT decided: '
              'equivalence / total-order laws, the rest of the format-specifier semantics, full functional correctness of the sort.',
         note='Trusted: rustc MIR, syn parse.',
         technique='static analysis: table agreement and a sibling-contradiction rule on the syntax tree; typestate (duplicate -> guard -> compare) and unit-origin analysis on resolved MIR',
